@@ -1,11 +1,13 @@
 import os, sys, time
 sys.path.insert(0, os.path.join(os.environ.get('VERIF_ROOT', '/verif'), 'engine', 'rt'))
 import ptgfam, ptgrun
+sys.path.insert(0, os.path.join(os.environ.get('VERIF_ROOT', '/verif'), 'harness', 'C02'))
+import il          # instruction-level leg of the real PTG runtime (harness/C02/il.py, c02_il.c), here with AGAIN-answering bodies
 
 META = dict(
-    engine='rt',
-    technique='exhaustive enumeration of AGAIN scripts (0..3)^n for every PTG program variant with n <= 4 instances x all task-level orders (harness scheduler DFS) x all 11 schedulers x threads {1,2} x 2 dependency back-ends; exhaustive start-up chunking grid task_startup_iter x task_startup_chunk in {1,2,3,5,default}^2 over execution spaces of 1..3 nested parameters',
-    level_text='Part A: for every script telling each instance how many times its body answers PARSEC_HOOK_RETURN_AGAIN (0..3 per instance, all combinations, programs with <= 4 instances: chains, fan-out + CTL gather, fan-in, independent tasks, WRITE/NEW data) the body is invoked exactly script+1 times, completes once, its successors run exactly once after it, and the taskpool terminates - under every task-level order (all orders for <= 2 instances, deviation-bounded above) and under every scheduler x {1,2} threads. Part B: for every (task_startup_iter, task_startup_chunk) of the 5x5 grid the chunked start-up generation (AGAIN re-submission of the generated start-up task, restore labels for local indices and nested loops) produces exactly the reference start-up instance set, each instance once, for execution-space shapes of 1..3 nested parameters and for classes mixing start-up and non-start-up instances.',
+    engine='rt+cosched',
+    technique='exhaustive enumeration of AGAIN scripts (0..3)^n for every PTG program variant with n <= 4 instances x all task-level orders (harness scheduler DFS) x all 11 schedulers x threads {1,2} x 2 dependency back-ends; exhaustive start-up chunking grid task_startup_iter x task_startup_chunk in {1,2,3,5,default}^2 over execution spaces of 1..3 nested parameters; plus (legs il-*-again1) preemption-bounded exhaustive instruction-level schedule enumeration (cosched) of two execution streams on real generated PTG taskpools whose bodies answer AGAIN once',
+    level_text='Part A: for every script telling each instance how many times its body answers PARSEC_HOOK_RETURN_AGAIN (0..3 per instance, all combinations, programs with <= 4 instances: chains, fan-out + CTL gather, fan-in, independent tasks, WRITE/NEW data) the body is invoked exactly script+1 times, completes once, its successors run exactly once after it, and the taskpool terminates - under every task-level order (all orders for <= 2 instances, deviation-bounded above) and under every scheduler x {1,2} threads. Part B: for every (task_startup_iter, task_startup_chunk) of the 5x5 grid the chunked start-up generation (AGAIN re-submission of the generated start-up task, restore labels for local indices and nested loops) produces exactly the reference start-up instance set, each instance once, for execution-space shapes of 1..3 nested parameters and for classes mixing start-up and non-start-up instances. Legs il-*-again1: three PTG taskpools (join in mask mode, CTL gather in counter mode, chunked start-up of two classes with a join) x 2 dependency back-ends on two controlled execution streams, every body answering AGAIN on its first invocation (the task is re-scheduled through the shared queue and may continue on the other stream), every interleaving with <= 1 preemption (thorough <= 2) at instrumented accesses to the shared state of the runtime: every body invoked exactly twice, completes once, successors after it with the right data, the taskpool terminates.',
     level_note='AGAIN is returned before the body touches its data (a body that partly ran is outside the property). No negative-step ranges here (recorded finding C01-negative-step-execution-space, exercised by C01). Nothing about order or priority after AGAIN is asserted.',
 )
 RULE = ("part A: every script in (0..3)^n per variant (n <= 4) is an execution box point; hsched: DFS over every choice of the next ready task incl. the re-submitted ones; "
@@ -15,7 +17,12 @@ OR_A = 1 | 2 | 16
 OR_B = 1
 
 
+IL_PROGS = ['il_join', 'il_gather', 'il_startup']
+
+
 def check(ctx):
+    from concurrent.futures import ThreadPoolExecutor
+    fut = ThreadPoolExecutor(1).submit(il.build, ctx, IL_PROGS)      # built in the background
     quick = ctx.tier == 'quick'
     pa, ra = ptgfam.c16_again_family(ctx.tier)
     pb, rb = ptgfam.c16_startup_family(ctx.tier)
@@ -43,9 +50,13 @@ def check(ctx):
         R.run_jobs(knA + knB, 'recorded-findings (index-array back-end, non-range parameters)', stop_on_violation=False)
     ctx.notes += R.notes
     R.cleanup()
-    return ctx.finish(RULE, ['task bodies and runtime actions atomic at the task level', 'single process, shared memory',
+    if not ctx.violations:
+        il.run(ctx, fut.result(), again=1, names=IL_PROGS)
+    return ctx.finish(RULE + '; ' + il.RULE, il.ASSUME + ['task bodies and runtime actions atomic at the task level', 'single process, shared memory',
                              'AGAIN returned before the body touches data'])
 
 
 def replay(ctx, path, obj):
+    if obj.get('engine') == 'cosched':
+        return il.replay(ctx, path, obj)
     return ptgrun.replay(ctx, path, obj, ptgfam.c16_again_family('thorough')[0] + ptgfam.c16_startup_family('thorough')[0])
